@@ -193,7 +193,10 @@ pub fn cross_alphabet() -> Vec<Op> {
     vec![
         Op::PushClipRect(1, 0, 5, 4),
         Op::PushClipRect(0, 1, 4, 5),
-        Op::PushClip(PathSpec::rect(-2.0, -1.0, wf + 4.0, hf + 3.0)),
+        // a clip rectangle beside the first one on one axis only, and a clip path much smaller than
+        // the surface (a layer pushed under it may not be sized by the path's own bounds)
+        Op::PushClipRect(5, 0, 6, 5),
+        Op::PushClip(PathSpec::rect(1.5, 1.25, 2.5, 2.0)),
         Op::PushClip(PathSpec::poly(&[(0.25, 0.5), (wf - 0.25, 0.0), (wf * 0.5, hf - 0.25)])),
         Op::PopClip,
         Op::PushLayer(1.0, BlendMode::SrcOver),
